@@ -197,6 +197,20 @@ fn mixes() -> Vec<Mix> {
         Mix { hostile: true, partial: false, name: "XO+SI rejected calls, subnormal signal".to_string(), cfgs: vec![Cfg::fft(Kind::XO, 2, 3, 48, 2).with_channels(2), si.clone()] },
         Mix { hostile: false, partial: false, name: "FO+FO ratios 3e-5 apart".to_string(), cfgs: vec![fo.clone(), { let mut c = fo.clone(); c.ratio += 3.0e-5; c }] },
     ];
+    // lifecycles: three instances with distinct settings built in every order, one of them
+    // dropped, a fourth built with the settings of one of the three (a per-thread registry of
+    // weak references is purged and searched at that moment)
+    {
+        let w = |win: rubato::WindowFunction, l: usize, os: usize| {
+            let mut c = Cfg::sinc(Kind::SI, 1.2, 2.0, 24, l, os, Interp::Cubic, Kernel::Dispatch).with_channels(2);
+            c.window = win;
+            c
+        };
+        v.push(Mix { hostile: false, partial: false, name: "lifecycle sinc: three windows".to_string(), cfgs: vec![w(rubato::WindowFunction::Hann2, 16, 8), w(rubato::WindowFunction::Blackman2, 16, 8), w(rubato::WindowFunction::BlackmanHarris2, 16, 8)] });
+        v.push(Mix { hostile: false, partial: false, name: "lifecycle sinc: three shapes".to_string(), cfgs: vec![w(rubato::WindowFunction::BlackmanHarris2, 16, 8), w(rubato::WindowFunction::BlackmanHarris2, 24, 8), w(rubato::WindowFunction::BlackmanHarris2, 16, 16)] });
+        v.push(Mix { hostile: false, partial: false, name: "lifecycle fft: three blocks".to_string(), cfgs: vec![Cfg::fft(Kind::XX, 2, 1, 96, 1).with_channels(2), Cfg::fft(Kind::XX, 2, 1, 288, 1).with_channels(2), Cfg::fft(Kind::XX, 2, 1, 192, 1).with_channels(2)] });
+        v.push(Mix { hostile: false, partial: false, name: "lifecycle fast: three degrees".to_string(), cfgs: vec![fi.clone(), { let mut c = fi.clone(); c.degree = Degree::Septic; c }, { let mut c = fi.clone(); c.degree = Degree::Linear; c }] });
+    }
     // FFT lengths that divide each other (a planner shared between instances serves parts of
     // the longer transform from what it planned for the shorter one): smooth lengths n and k*n
     for n in [96usize, 108, 144, 216, 240, 288, 360, 540, 756, 1152, 1440] {
@@ -450,6 +464,47 @@ fn run_schedules(mix: &Mix, item: &Item, journal: Option<&JournalFile>) -> Resul
         }
         for h in handles {
             let _ = h.join();
+        }
+    }
+    // ---- lifecycles (mixes named so): build the three in every order, drop one, build a fourth
+    // with the settings of one of the three, run its script; on a fresh thread per scenario
+    if mix.name.starts_with("lifecycle") && k == 3 && item.part == 0 {
+        let perms: [[usize; 3]; 6] = [[0, 1, 2], [0, 2, 1], [1, 0, 2], [1, 2, 0], [2, 0, 1], [2, 1, 0]];
+        for perm in perms {
+            for dropped in 0..3usize {
+                for again in 0..3usize {
+                    let cfgs = mix.cfgs.clone();
+                    let (partial, hostile) = (mix.partial, mix.hostile);
+                    let outs = std::thread::spawn(move || -> Result<Vec<StepOut>, String> {
+                        crate::run::install_panic_hook();
+                        let mut alive: Vec<Option<Box<Runner<f64>>>> = vec![None, None, None];
+                        for &i in &perm {
+                            alive[i] = Some(build(&cfgs[i], i, hostile)?);
+                        }
+                        alive[dropped] = None;
+                        let mut r = build(&cfgs[again], again, hostile)?;
+                        let mut outs = Vec::new();
+                        for ops in script(&cfgs[again], partial, hostile) {
+                            outs.push(exec(&mut r, &ops));
+                        }
+                        drop(alive);
+                        Ok(outs)
+                    })
+                    .join()
+                    .map_err(|_| "lifecycle thread panicked".to_string())??;
+                    schedules += 1;
+                    transitions += 5 + M as u64;
+                    let ok = outs == reference[again];
+                    outcome_set.insert(format!("{}:lifecycle:{}", mix.name, if ok { "same" } else { "DIFFERENT" }));
+                    if !ok && found.len() < 10 {
+                        found.push(json!({
+                            "prop": "C18", "sig": "lifecycle-changes-output",
+                            "detail": format!("mix '{}': instances built in order {:?}, instance {} dropped, then a new instance with the settings of instance {} built on the same thread: its output differs from the isolated run", mix.name, perm, dropped, again),
+                            "cfg": mix.cfgs[again].to_json(), "history": "", "point": format!("mix={} lifecycle", mix.name),
+                        }));
+                    }
+                }
+            }
         }
     }
     // ---- supplementary, sampling (labelled so): free-running threads behind a barrier
